@@ -7,7 +7,6 @@ use nv_engine::{pick, CaseCtx, Fail};
 use relational_engine::{Column, ColumnType, Condition, RelationalConfig, RelationalEngine, RelationalError, Row, Schema, Value};
 use std::collections::{BTreeMap, BTreeSet, HashMap};
 
-pub const TABLE: &str = "t";
 /// lock / transaction timeout of the main regime: wall clock never matters
 pub const FOREVER_SECS: u64 = 10_000_000;
 
@@ -68,7 +67,7 @@ fn leaf(op: Cmp, col: &str, v: Value) -> Condition {
     }
 }
 
-pub fn to_condition(m: &Model, c: &Cond) -> Condition {
+pub fn to_condition(m: &TableM, c: &Cond) -> Condition {
     match c {
         Cond::True => Condition::True,
         Cond::A(op, k) => leaf(*op, "a", Value::Int(*k)),
@@ -82,7 +81,7 @@ pub fn to_condition(m: &Model, c: &Cond) -> Condition {
 
 /// Which access path the engine documents for this condition given the current indexes
 /// (Eq -> hash index, ordering -> btree index, AND -> first indexable side). Signature only.
-pub fn path_of(m: &Model, c: &Cond) -> (&'static str, Option<usize>) {
+pub fn path_of(m: &TableM, c: &Cond) -> (&'static str, Option<usize>) {
     let leaf = |op: Cmp, col: usize| -> Option<(&'static str, Option<usize>)> {
         match op {
             Cmp::Eq if m.hash[col] => Some((if col == 3 { "id-hash-eq" } else { "hash-eq" }, Some(col))),
@@ -174,6 +173,7 @@ fn is_finished_err(e: &RelationalError) -> bool {
 
 struct Pending {
     me: Option<usize>,
+    tb: usize,
     stmt: Stmt,
     blockers: BTreeSet<usize>,
 }
@@ -190,7 +190,7 @@ pub struct Run {
 }
 
 /// Battery of probe conditions. `full` also probes columns that have no index and AND-combinations.
-fn probes(m: &Model, full: bool) -> Vec<Cond> {
+fn probes(m: &TableM, full: bool) -> Vec<Cond> {
     let mut q = vec![Cond::True];
     let ranges = [Cmp::Lt, Cmp::Le, Cmp::Gt, Cmp::Ge];
     if full || m.hash[0] {
@@ -232,7 +232,11 @@ fn probes(m: &Model, full: bool) -> Vec<Cond> {
     }
     // `_id`: Cond::Id takes a pick index; index i*65536/n (rounded up) selects id i+1 of n = max_id+1
     let n = m.max_id + 1;
-    let idx_of = |id: u64| -> u16 { (((id - 1) << 16).div_ceil(n)).min(65535) as u16 };
+    let idx_of = |id: u64| -> u16 {
+        let i = (((id - 1) << 16).div_ceil(n)).min(65535) as u16;
+        debug_assert_eq!(m.id_of(i), id);
+        i
+    };
     if full || m.hash[3] {
         for id in 1..=n {
             q.push(Cond::Id(Cmp::Eq, idx_of(id)));
@@ -286,7 +290,7 @@ impl Run {
             "rollbacks_of_mixed_statements_on_indexed_table": self.mixed_rollbacks,
             "retries_after_release_ok": self.retries_ok,
             "transactions": self.m.txs.len(),
-            "rows_ever": self.m.max_id,
+            "rows_ever": [self.m.tabs[0].max_id, self.m.tabs[1].max_id],
         })
     }
 
@@ -298,27 +302,31 @@ impl Run {
         }
     }
 
-    pub fn setup(&mut self, idx: &[u8; NCOLS], seed: &[Vals], ctx: &mut CaseCtx) -> Result<(), Fail> {
-        let schema = Schema::new(vec![
-            Column::new("a", ColumnType::Int),
-            Column::new("b", ColumnType::Int).nullable(),
-            Column::new("s", ColumnType::String),
-        ]);
-        self.eng.create_table(TABLE, schema).map_err(|e| Fail::new("setup:create-table", format!("{e:?}")))?;
-        for c in 0..NCOLS {
-            if idx[c] & 1 != 0 {
-                self.eng.create_index(TABLE, COL_NAMES[c]).map_err(|e| Fail::new("setup:create-index", format!("{e:?}")))?;
-                self.m.hash[c] = true;
-            }
-            if idx[c] & 2 != 0 {
-                self.eng
-                    .create_btree_index(TABLE, COL_NAMES[c])
-                    .map_err(|e| Fail::new("setup:create-btree-index", format!("{e:?}")))?;
-                self.m.btree[c] = true;
+    pub fn setup(&mut self, idx: &[[u8; NCOLS]; NTABS], seed: &[Vec<Vals>; NTABS], ctx: &mut CaseCtx) -> Result<(), Fail> {
+        for t in 0..NTABS {
+            let schema = Schema::new(vec![
+                Column::new("a", ColumnType::Int),
+                Column::new("b", ColumnType::Int).nullable(),
+                Column::new("s", ColumnType::String),
+            ]);
+            self.eng.create_table(TABLES[t], schema).map_err(|e| Fail::new("setup:create-table", format!("{e:?}")))?;
+            for c in 0..NCOLS {
+                if idx[t][c] & 1 != 0 {
+                    self.eng.create_index(TABLES[t], COL_NAMES[c]).map_err(|e| Fail::new("setup:create-index", format!("{e:?}")))?;
+                    self.m.tabs[t].hash[c] = true;
+                }
+                if idx[t][c] & 2 != 0 {
+                    self.eng
+                        .create_btree_index(TABLES[t], COL_NAMES[c])
+                        .map_err(|e| Fail::new("setup:create-btree-index", format!("{e:?}")))?;
+                    self.m.tabs[t].btree[c] = true;
+                }
             }
         }
-        for v in seed {
-            self.exec_stmt(None, &Stmt::Insert(v.clone()), false, ctx)?;
+        for t in 0..NTABS {
+            for v in &seed[t] {
+                self.exec_stmt(None, t, &Stmt::Insert(v.clone()), false, ctx)?;
+            }
         }
         Ok(())
     }
@@ -330,29 +338,35 @@ impl Run {
         // NV_C09_NO_LOCKTABLE=1 (sensitivity experiments only): no lock-table / transaction-table
         // introspection, exclusion and finished handles are judged by behaviour alone
         let introspect = std::env::var_os("NV_C09_NO_LOCKTABLE").is_none();
-        if introspect && n != self.m.locks.len() {
-            let k = if n > self.m.locks.len() { "locks-left" } else { "locks-missing" };
+        let want_locks = self.m.lock_count();
+        if introspect && n != want_locks {
+            let k = if n > want_locks { "locks-left" } else { "locks-missing" };
             ctx.fail(
                 self.sig(format!("{phase}:{k}")),
-                format!("{phase}: active_lock_count() = {n}, model holds {} row locks {:?}", self.m.locks.len(), self.m.locks),
+                format!("{phase}: active_lock_count() = {n}, model holds {want_locks} row locks {:?} / {:?}", self.m.tabs[0].locks, self.m.tabs[1].locks),
             )?;
         }
-        for id in self.m.rows.keys().filter(|_| introspect) {
-            let got = tm.row_lock_holder(TABLE, *id);
-            let exp = self.m.locks.get(id).map(|h| self.m.txs[*h].eid);
-            if got != exp {
-                let k = match (got, exp) {
-                    (Some(_), None) => "unexpected",
-                    (None, Some(_)) => "missing",
-                    _ => "wrong-owner",
-                };
-                ctx.fail(
-                    self.sig(format!("{phase}:lock-holder:{k}")),
-                    format!("{phase}: row {id} lock holder {got:?}, expected {exp:?}"),
-                )?;
-            }
-            if tm.is_row_locked(TABLE, *id) != exp.is_some() {
-                ctx.fail(self.sig(format!("{phase}:is-row-locked")), format!("{phase}: is_row_locked({id}) != {}", exp.is_some()))?;
+        for (t, tab) in self.m.tabs.iter().enumerate() {
+            for id in tab.rows.keys().filter(|_| introspect) {
+                let got = tm.row_lock_holder(TABLES[t], *id);
+                let exp = tab.locks.get(id).map(|h| self.m.txs[*h].eid);
+                if got != exp {
+                    let k = match (got, exp) {
+                        (Some(_), None) => "unexpected",
+                        (None, Some(_)) => "missing",
+                        _ => "wrong-owner",
+                    };
+                    ctx.fail(
+                        self.sig(format!("{phase}:lock-holder:{k}")),
+                        format!("{phase}: {}/{id} lock holder {got:?}, expected {exp:?}", TABLES[t]),
+                    )?;
+                }
+                if tm.is_row_locked(TABLES[t], *id) != exp.is_some() {
+                    ctx.fail(
+                        self.sig(format!("{phase}:is-row-locked")),
+                        format!("{phase}: is_row_locked({}/{id}) != {}", TABLES[t], exp.is_some()),
+                    )?;
+                }
             }
         }
         let live = self.m.live_handles().len();
@@ -372,39 +386,51 @@ impl Run {
                 )?;
             }
         }
-        for q in probes(&self.m, full) {
-            self.probe(phase, &q, ctx)?;
+        for t in 0..NTABS {
+            for q in probes(&self.m.tabs[t], full) {
+                self.probe(phase, t, &q, ctx)?;
+            }
         }
         Ok(())
     }
 
-    fn probe(&self, phase: &str, q: &Cond, ctx: &mut CaseCtx) -> Result<(), Fail> {
-        let (path, col) = path_of(&self.m, q);
-        let expected: Vec<(u64, Vals)> = self.m.matching(q).into_iter().map(|id| (id, self.m.rows[&id].vals.clone())).collect();
-        let cond = to_condition(&self.m, q);
-        match self.eng.select(TABLE, cond.clone()) {
-            Err(e) => ctx.fail(self.sig(format!("{phase}:{path}:select-err")), format!("{phase}: select({cond:?}) failed: {e:?}")),
+    /// Signature of a read that differs from the model.
+    fn read_sig(&self, phase: &str, t: usize, path: &str, col: Option<usize>, kind: &str) -> String {
+        let mut sig = format!("{phase}:{path}:{kind}");
+        if let Some(c) = col {
+            if kind == "dup" && path.ends_with("btree-range") && self.m.tabs[t].ghost_btree[c] {
+                // surfaces at the DDL or at any later statement that moves the row to another key
+                sig = format!("index-read:{path}:dup+btree-created-on-column-that-was-hash-only-during-a-rollback");
+            }
+            if path.ends_with("hash-eq") && self.m.tabs[t].ghost_hash[c] {
+                sig.push_str("+hash-created-on-column-that-was-btree-only-during-a-rollback");
+            }
+        }
+        // index DDL inside an open transaction: one root cause (the undo log knows only the indexes that
+        // existed when the statement ran), so indexed reads share one signature per kind of difference
+        if self.m.ddl_in_open_tx && path != "scan" {
+            format!("ddl-in-open-tx/index-read:{kind}")
+        } else {
+            self.sig(sig)
+        }
+    }
+
+    fn probe(&self, phase: &str, t: usize, q: &Cond, ctx: &mut CaseCtx) -> Result<(), Fail> {
+        let tab = &self.m.tabs[t];
+        let (path, col) = path_of(tab, q);
+        let expected = tab.expected(q);
+        let cond = to_condition(tab, q);
+        match self.eng.select(TABLES[t], cond.clone()) {
+            Err(e) => ctx.fail(self.sig(format!("{phase}:{path}:select-err")), format!("{phase}: select({}, {cond:?}) failed: {e:?}", TABLES[t])),
             Ok(rows) => match diff(&expected, &rows) {
                 None => Ok(()),
                 Some((kind, msg)) => {
-                    let mut sig = format!("{phase}:{path}:{kind}");
-                    if let Some(c) = col {
-                        if kind == "dup" && path.ends_with("btree-range") && self.m.ghost_btree[c] {
-                            // surfaces at the DDL or at any later statement that moves the row to another key
-                            sig = format!("index-read:{path}:dup+btree-created-on-column-that-was-hash-only-during-a-rollback");
-                        }
-                        if path.ends_with("hash-eq") && self.m.ghost_hash[c] {
-                            sig.push_str("+hash-created-on-column-that-was-btree-only-during-a-rollback");
-                        }
-                    }
-                    // one root cause (the undo log knows only the indexes that existed when the statement ran),
-                    // so indexed reads of this family share one signature per kind of difference
-                    let sig = if self.m.ddl_in_open_tx && path != "scan" { format!("ddl-in-open-tx/index-read:{kind}") } else { self.sig(sig) };
+                    let sig = self.read_sig(phase, t, path, col, kind);
                     ctx.fail(
                         sig,
                         format!(
-                            "{phase}: select({cond:?}) via {path} (hash idx {:?}, btree idx {:?}): {msg}",
-                            self.m.hash, self.m.btree
+                            "{phase}: select({}, {cond:?}) via {path} (hash idx {:?}, btree idx {:?}): {msg}",
+                            TABLES[t], tab.hash, tab.btree
                         ),
                     )
                 },
@@ -412,23 +438,24 @@ impl Run {
         }
     }
 
-    /// One INSERT/UPDATE/DELETE of transaction `me` (None = non-transactional call).
-    pub fn exec_stmt(&mut self, me: Option<usize>, stmt: &Stmt, retry: bool, ctx: &mut CaseCtx) -> Result<(), Fail> {
+    /// One INSERT/UPDATE/DELETE of transaction `me` (None = non-transactional call) on table `t`.
+    pub fn exec_stmt(&mut self, me: Option<usize>, t: usize, stmt: &Stmt, retry: bool, ctx: &mut CaseCtx) -> Result<(), Fail> {
         let kind = stmt_kind(me.is_some(), stmt);
         let eid = me.map(|h| self.m.txs[h].eid);
+        let table = TABLES[t];
         match stmt {
             Stmt::Insert(v) => {
                 let r = match eid {
-                    Some(e) => self.eng.tx_insert(e, TABLE, vals_map(v)),
-                    None => self.eng.insert(TABLE, vals_map(v)),
+                    Some(e) => self.eng.tx_insert(e, table, vals_map(v)),
+                    None => self.eng.insert(table, vals_map(v)),
                 };
                 match r {
                     Ok(id) => {
-                        if id == 0 || self.m.rows.contains_key(&id) {
+                        if id == 0 || self.m.tabs[t].rows.contains_key(&id) {
                             ctx.fail(self.sig(format!("{kind}:id-reused")), format!("{kind} returned row id {id} which was handed out before"))?;
                             return Ok(());
                         }
-                        self.m.apply_insert(me, id, v);
+                        self.m.apply_insert(me, t, id, v);
                         ctx.label(kind);
                     },
                     Err(e) => {
@@ -439,30 +466,30 @@ impl Run {
                 self.check("after-stmt", false, ctx)
             },
             Stmt::Update(c, _) | Stmt::Delete(c) => {
-                let ids = self.m.matching(c);
-                let (bh, brows) = self.m.blockers(me, &ids);
-                if bh.is_empty() && self.m.touches_foreign_insert(me, &ids) {
+                let ids = self.m.tabs[t].matching(c);
+                let (bh, brows) = self.m.tabs[t].blockers(me, &ids);
+                if bh.is_empty() && self.m.tabs[t].touches_foreign_insert(me, &ids) {
                     // rows inserted by an open transaction carry no lock in this engine; what another
                     // statement may do to them is not what C09 states
                     ctx.label("skip:matches-uncommitted-insert-of-other-tx");
                     return Ok(());
                 }
-                let cond = to_condition(&self.m, c);
+                let cond = to_condition(&self.m.tabs[t], c);
                 let r = match (stmt, eid) {
-                    (Stmt::Update(_, s), Some(e)) => self.eng.tx_update(e, TABLE, cond.clone(), sets_map(s)),
-                    (Stmt::Update(_, s), None) => self.eng.update(TABLE, cond.clone(), sets_map(s)),
-                    (Stmt::Delete(_), Some(e)) => self.eng.tx_delete(e, TABLE, cond.clone()),
-                    (Stmt::Delete(_), None) => self.eng.delete_rows(TABLE, cond.clone()),
+                    (Stmt::Update(_, s), Some(e)) => self.eng.tx_update(e, table, cond.clone(), sets_map(s)),
+                    (Stmt::Update(_, s), None) => self.eng.update(table, cond.clone(), sets_map(s)),
+                    (Stmt::Delete(_), Some(e)) => self.eng.tx_delete(e, table, cond.clone()),
+                    (Stmt::Delete(_), None) => self.eng.delete_rows(table, cond.clone()),
                     _ => unreachable!(),
                 };
                 if !bh.is_empty() {
                     match r {
-                        Err(RelationalError::LockConflict { tx_id, blocking_tx, table, row_id }) => {
+                        Err(RelationalError::LockConflict { tx_id, blocking_tx, table: tn, row_id }) => {
                             let owners: Vec<u64> = bh.iter().map(|h| self.m.txs[*h].eid).collect();
-                            if !owners.contains(&blocking_tx) || !brows.contains(&row_id) || table != TABLE || eid.is_some_and(|e| e != tx_id) {
+                            if !owners.contains(&blocking_tx) || !brows.contains(&row_id) || tn != table || eid.is_some_and(|e| e != tx_id) {
                                 ctx.fail(
                                     self.sig(format!("exclusion:{kind}:conflict-info")),
-                                    format!("{kind}({cond:?}): LockConflict names tx {tx_id} blocked by {blocking_tx} on {table}/{row_id}; holders {owners:?}, locked matched rows {brows:?}"),
+                                    format!("{kind}({table}, {cond:?}): LockConflict names tx {tx_id} blocked by {blocking_tx} on {tn}/{row_id}; holders {owners:?}, locked matched rows {brows:?}"),
                                 )?;
                             }
                             self.conflicts += 1;
@@ -472,50 +499,56 @@ impl Run {
                             if retry {
                                 ctx.label("retry:still-blocked");
                             } else {
-                                self.pending.push(Pending { me, stmt: stmt.clone(), blockers: bh });
+                                self.pending.push(Pending { me, tb: t, stmt: stmt.clone(), blockers: bh });
                             }
                         },
                         Ok(n) => {
                             ctx.fail(
                                 self.sig(format!("exclusion:{kind}:no-conflict")),
-                                format!("{kind}({cond:?}) returned Ok({n}) although matched rows {brows:?} (of {ids:?}) are locked by open transactions {bh:?}"),
+                                format!("{kind}({table}, {cond:?}) returned Ok({n}) although matched rows {brows:?} (of {ids:?}) are locked by open transactions {bh:?}"),
                             )?;
                             return Ok(());
                         },
                         Err(e) => {
                             ctx.fail(
                                 self.sig(format!("exclusion:{kind}:wrong-error")),
-                                format!("{kind}({cond:?}) on rows locked by another transaction returned {e:?}, expected LockConflict"),
+                                format!("{kind}({table}, {cond:?}) on rows locked by another transaction returned {e:?}, expected LockConflict"),
                             )?;
                             return Ok(());
                         },
                     }
-                    // "change nothing": table, indexes and lock table as before
+                    // "change nothing": tables, indexes and lock table as before
                     return self.check("after-conflict", true, ctx);
                 }
                 match r {
                     Ok(n) if n == ids.len() => {},
                     Ok(n) => {
-                        ctx.fail(self.sig(format!("stmt:{kind}:count")), format!("{kind}({cond:?}) affected {n} rows, model matches {ids:?}"))?;
+                        ctx.fail(self.sig(format!("stmt:{kind}:count")), format!("{kind}({table}, {cond:?}) affected {n} rows, model matches {ids:?}"))?;
                         return Ok(());
                     },
                     Err(RelationalError::LockConflict { blocking_tx, row_id, .. }) => {
                         ctx.fail(
                             self.sig(format!("exclusion:{kind}:spurious-conflict{}", if retry { ":after-release" } else { "" })),
-                            format!("{kind}({cond:?}) got LockConflict (tx {blocking_tx}, row {row_id}) although no open transaction holds a matched row {ids:?}; model locks {:?}", self.m.locks),
+                            format!(
+                                "{kind}({table}, {cond:?}) got LockConflict (tx {blocking_tx}, row {row_id}) although no other open transaction holds a matched row {ids:?}; model locks t:{:?} w:{:?}, requester handle {me:?}",
+                                self.m.tabs[0].locks, self.m.tabs[1].locks
+                            ),
                         )?;
                         return Ok(());
                     },
                     Err(e) => {
-                        ctx.fail(self.sig(format!("stmt:{kind}:err")), format!("{kind}({cond:?}) failed: {e:?}"))?;
+                        ctx.fail(self.sig(format!("stmt:{kind}:err")), format!("{kind}({table}, {cond:?}) failed: {e:?}"))?;
                         return Ok(());
                     },
                 }
                 match stmt {
-                    Stmt::Update(_, s) => self.m.apply_update(me, &ids, &norm_sets(s)),
-                    _ => self.m.apply_delete(me, &ids),
+                    Stmt::Update(_, s) => self.m.apply_update(me, t, &ids, &norm_sets(s)),
+                    _ => self.m.apply_delete(me, t, &ids),
                 }
                 ctx.label(kind);
+                if t == 1 {
+                    ctx.label("second-table-statement");
+                }
                 if retry {
                     self.retries_ok += 1;
                     ctx.label("retry:ok-after-release");
@@ -535,13 +568,18 @@ impl Run {
             return Ok(());
         }
         let kinds = self.m.txs[h].kinds.count_ones();
+        let touched_tables = (0..NTABS).filter(|t| self.m.txs[h].before.keys().any(|(tt, _)| tt == t)).count();
         if !commit {
             self.rollbacks += 1;
             ctx.label(format!("rollback:kinds={kinds}"));
-            if kinds >= 2 && self.m.indexed() {
+            let on_indexed = (0..NTABS).any(|t| self.m.tabs[t].indexed() && self.m.txs[h].before.keys().any(|(tt, _)| *tt == t));
+            if kinds >= 2 && on_indexed {
                 self.mixed_rollbacks += 1;
                 ctx.label("rollback:mixed-on-indexed-table");
                 ctx.set_nontrivial();
+            }
+            if touched_tables == 2 {
+                ctx.label("rollback:both-tables");
             }
             if self.m.other_dirty_live(Some(h)) {
                 ctx.label("rollback:while-other-tx-dirty");
@@ -558,18 +596,18 @@ impl Run {
         let mut todo = Vec::new();
         for p in &mut self.pending {
             if p.blockers.remove(&h) && p.blockers.is_empty() {
-                todo.push((p.me, p.stmt.clone()));
+                todo.push((p.me, p.tb, p.stmt.clone()));
             }
         }
         self.pending.retain(|p| !p.blockers.is_empty());
-        for (me, stmt) in todo {
+        for (me, tb, stmt) in todo {
             if let Some(u) = me {
                 if self.m.txs[u].state != TxState::Live {
                     ctx.label("retry:requester-finished");
                     continue;
                 }
             }
-            self.exec_stmt(me, &stmt, true, ctx)?;
+            self.exec_stmt(me, tb, &stmt, true, ctx)?;
             if ctx.known_hit() {
                 return Ok(());
             }
@@ -590,11 +628,12 @@ impl Run {
                     ctx.fail(self.sig("begin:id-reused".into()), format!("begin_transaction returned {eid} again"))?;
                     return Ok(());
                 }
-                self.m.txs.push(MTx { eid, state: TxState::Live, before: BTreeMap::new(), kinds: 0, one_kind: [(false, false); NCOLS] });
+                self.m.txs.push(MTx::new(eid));
                 ctx.label(format!("open-tx={}", live.len() + 1));
                 self.check("after-begin", false, ctx)
             },
-            Op::Tx { h, stmt } => {
+            Op::Tx { h, tb, stmt } => {
+                let t = *tb as usize % NTABS;
                 if live.is_empty() {
                     // a transactional statement with nothing open begins a transaction first
                     ctx.label("implicit-begin");
@@ -603,18 +642,19 @@ impl Run {
                     if live.is_empty() || ctx.known_hit() {
                         return Ok(());
                     }
-                    return self.exec_stmt(Some(live[0]), stmt, false, ctx);
+                    return self.exec_stmt(Some(live[0]), t, stmt, false, ctx);
                 }
-                self.exec_stmt(Some(live[pick(*h, live.len())]), stmt, false, ctx)
+                self.exec_stmt(Some(live[pick(*h, live.len())]), t, stmt, false, ctx)
             },
-            Op::TxSelect { h, cond } => {
+            Op::TxSelect { h, tb, cond } => {
                 if live.is_empty() {
                     ctx.label("skip:no-open-tx");
                     return Ok(());
                 }
+                let t = *tb as usize % NTABS;
                 let me = live[pick(*h, live.len())];
-                let c = to_condition(&self.m, cond);
-                match self.eng.tx_select(self.m.txs[me].eid, TABLE, c.clone()) {
+                let c = to_condition(&self.m.tabs[t], cond);
+                match self.eng.tx_select(self.m.txs[me].eid, TABLES[t], c.clone()) {
                     Err(e) => ctx.fail(self.sig("tx_select:err".into()), format!("tx_select({c:?}) failed: {e:?}")),
                     Ok(rows) => {
                         if self.m.other_dirty_live(Some(me)) {
@@ -623,13 +663,12 @@ impl Run {
                             return Ok(());
                         }
                         ctx.label("tx_select");
-                        let expected: Vec<(u64, Vals)> =
-                            self.m.matching(cond).into_iter().map(|id| (id, self.m.rows[&id].vals.clone())).collect();
+                        let expected = self.m.tabs[t].expected(cond);
                         match diff(&expected, &rows) {
                             None => Ok(()),
                             Some((k, msg)) => {
-                                let (path, _) = path_of(&self.m, cond);
-                                ctx.fail(self.sig(format!("tx_select:{path}:{k}")), format!("tx_select({c:?}): {msg}"))
+                                let (path, col) = path_of(&self.m.tabs[t], cond);
+                                ctx.fail(self.read_sig("tx_select", t, path, col, k), format!("tx_select({}, {c:?}) via {path}: {msg}", TABLES[t]))
                             },
                         }
                     },
@@ -642,8 +681,8 @@ impl Run {
                 }
                 self.finish(live[pick(*h, live.len())], matches!(op, Op::Commit { .. }), ctx)
             },
-            Op::Plain(stmt) => self.exec_stmt(None, stmt, false, ctx),
-            Op::Select(cond) => self.probe("select", cond, ctx),
+            Op::Plain { tb, stmt } => self.exec_stmt(None, *tb as usize % NTABS, stmt, false, ctx),
+            Op::Select { tb, cond } => self.probe("select", *tb as usize % NTABS, cond, ctx),
             Op::UseFinished { h, kind } => {
                 let fin = self.m.finished_handles();
                 let (eid, who) = if fin.is_empty() {
@@ -651,12 +690,13 @@ impl Run {
                 } else {
                     (self.m.txs[fin[pick(*h, fin.len())]].eid, "finished")
                 };
+                let table = TABLES[(*h as usize) % NTABS];
                 let v = Vals { a: 0, b: None, s: 0 };
                 let (name, r): (&str, Result<(), RelationalError>) = match kind % 6 {
-                    0 => ("tx_insert", self.eng.tx_insert(eid, TABLE, vals_map(&v)).map(|_| ())),
-                    1 => ("tx_update", self.eng.tx_update(eid, TABLE, Condition::True, sets_map(&Sets { a: Some(1), b: None, s: None })).map(|_| ())),
-                    2 => ("tx_delete", self.eng.tx_delete(eid, TABLE, Condition::True).map(|_| ())),
-                    3 => ("tx_select", self.eng.tx_select(eid, TABLE, Condition::True).map(|_| ())),
+                    0 => ("tx_insert", self.eng.tx_insert(eid, table, vals_map(&v)).map(|_| ())),
+                    1 => ("tx_update", self.eng.tx_update(eid, table, Condition::True, sets_map(&Sets { a: Some(1), b: None, s: None })).map(|_| ())),
+                    2 => ("tx_delete", self.eng.tx_delete(eid, table, Condition::True).map(|_| ())),
+                    3 => ("tx_select", self.eng.tx_select(eid, table, Condition::True).map(|_| ())),
                     4 => ("commit", self.eng.commit(eid)),
                     _ => ("rollback", self.eng.rollback(eid)),
                 };
@@ -677,7 +717,8 @@ impl Run {
                 }
                 self.check("after-misuse", false, ctx)
             },
-            Op::ToggleIndex { col, btree } => {
+            Op::ToggleIndex { tb, col, btree } => {
+                let t = *tb as usize % NTABS;
                 let c = *col as usize % NCOLS;
                 if self.m.any_dirty_live() {
                     if !self.case_ddl_live {
@@ -687,21 +728,21 @@ impl Run {
                     self.m.ddl_in_open_tx = true;
                     ctx.label("ddl:in-open-tx");
                 }
-                let present = if *btree { self.m.btree[c] } else { self.m.hash[c] };
+                let present = if *btree { self.m.tabs[t].btree[c] } else { self.m.tabs[t].hash[c] };
                 let r = match (*btree, present) {
-                    (false, false) => self.eng.create_index(TABLE, COL_NAMES[c]),
-                    (false, true) => self.eng.drop_index(TABLE, COL_NAMES[c]),
-                    (true, false) => self.eng.create_btree_index(TABLE, COL_NAMES[c]),
-                    (true, true) => self.eng.drop_btree_index(TABLE, COL_NAMES[c]),
+                    (false, false) => self.eng.create_index(TABLES[t], COL_NAMES[c]),
+                    (false, true) => self.eng.drop_index(TABLES[t], COL_NAMES[c]),
+                    (true, false) => self.eng.create_btree_index(TABLES[t], COL_NAMES[c]),
+                    (true, true) => self.eng.drop_btree_index(TABLES[t], COL_NAMES[c]),
                 };
                 if let Err(e) = r {
-                    ctx.fail(self.sig("ddl:err".into()), format!("index DDL on {} failed: {e:?}", COL_NAMES[c]))?;
+                    ctx.fail(self.sig("ddl:err".into()), format!("index DDL on {}.{} failed: {e:?}", TABLES[t], COL_NAMES[c]))?;
                     return Ok(());
                 }
                 if *btree {
-                    self.m.btree[c] = !present;
+                    self.m.tabs[t].btree[c] = !present;
                 } else {
-                    self.m.hash[c] = !present;
+                    self.m.tabs[t].hash[c] = !present;
                 }
                 ctx.label(format!("ddl:{}-{}", if present { "drop" } else { "create" }, if *btree { "btree" } else { "hash" }));
                 self.check("after-ddl", true, ctx)
@@ -716,9 +757,10 @@ pub fn run_case(case: &Case, ctx: &mut CaseCtx) -> Result<(), Fail> {
     if ctx.known_hit() {
         return Ok(());
     }
+    let tab = &run.m.tabs[0];
     ctx.label(format!(
-        "indexes:{}",
-        match (run.m.hash.iter().any(|b| *b), run.m.btree.iter().any(|b| *b)) {
+        "indexes(t):{}",
+        match (tab.hash.iter().any(|b| *b), tab.btree.iter().any(|b| *b)) {
             (false, false) => "none",
             (true, false) => "hash-only",
             (false, true) => "btree-only",
@@ -741,8 +783,8 @@ pub fn run_case(case: &Case, ctx: &mut CaseCtx) -> Result<(), Fail> {
         }
     }
     // nothing is open any more: no lock may be left, every path answers from the committed image
-    if !run.m.locks.is_empty() {
-        return Err(Fail::new("harness:model-locks-left", format!("model bug: locks left {:?}", run.m.locks)));
+    if run.m.lock_count() != 0 {
+        return Err(Fail::new("harness:model-locks-left", "model bug: locks left".to_string()));
     }
     run.check("end", true, ctx)?;
     ctx.note = Some(run.note());
